@@ -160,31 +160,49 @@ func (g *Gen) call(st *State, v ssa.Value, c *ssa.CallCommon, ins ssa.Instructio
 
 // siteRequires: extra preconditions of one call site, evaluated in the caller's scope (old = caller entry).
 func (g *Gen) siteRequires(st *State, ins ssa.Instruction, key string, pos token.Pos, c *ssa.CallCommon, args []string) {
-	prefix := "sitereq:" + g.fn.String() + ":" + key + "#"
-	var poss []token.Pos
-	for _, b := range g.fn.Blocks {
-		for _, i2 := range b.Instrs {
-			if ci, ok := i2.(ssa.CallInstruction); ok && calleeKey(ci.Common()) == key {
-				poss = append(poss, i2.Pos())
+	// the n-th call of key in the function under contract, in source order.  Inside a helper that is executed in place the
+	// count continues from the call that entered the helper: an "extract helper" refactoring keeps the site numbers
+	countBefore := func(fn *ssa.Function, pos token.Pos) int {
+		c := 0
+		for _, b := range fn.Blocks {
+			for _, i2 := range b.Instrs {
+				if ci, ok := i2.(ssa.CallInstruction); ok && calleeKey(ci.Common()) == key && i2.Pos() < pos {
+					c++
+				}
 			}
 		}
+		return c
 	}
+	root := g
 	n := 1
-	for _, p := range poss {
-		if p < ins.Pos() {
-			n++
-		}
+	at := ins.Pos()
+	for root.inlineOf != nil {
+		n += countBefore(root.fn, at)
+		at = root.inlinePos
+		root = root.inlineOf
 	}
+	n += countBefore(root.fn, at)
+	prefix := "sitereq:" + root.fn.String() + ":" + key + "#"
 	for _, k := range []string{fmt.Sprintf("%s%d", prefix, n), prefix + "*"} {
 		ct := g.eng.db.Contracts[k]
 		if ct == nil {
 			continue
 		}
-		g.markSite(k)
+		root.markSite(k)
 		g.sitePos = ins.Pos()
 		env := g.baseEnv(st)
 		g.addLets(env)
 		g.bindLocalsForSite(env, st)
+		// inside a helper executed in place: the parameters of the functions around it, under their own names
+		for x := g.inlineOf; x != nil; x = x.inlineOf {
+			for _, p := range x.fn.Params {
+				if _, clash := env.vars[p.Name()]; !clash {
+					if t, ok := x.val[p]; ok {
+						env.vars[p.Name()] = tv{t: t, ty: goT(p.Type())}
+					}
+				}
+			}
+		}
 		// the callee's parameters are visible too (under their own names unless a caller name is in the way, and as argN)
 		names, tys := calleeParams(c.StaticCallee(), c.Signature(), false)
 		for i := range names {
@@ -238,6 +256,11 @@ func (g *Gen) inlineCall(st *State, v ssa.Value, callee *ssa.Function, args []st
 	g2 := NewGen(g.eng, callee, root.ct)
 	g2.sc = g.sc
 	g2.inlineOf = g
+	if ci, ok := v.(ssa.Instruction); ok && v != nil {
+		g2.inlinePos = ci.Pos()
+	} else if g.curIns != nil {
+		g2.inlinePos = g.curIns.Pos()
+	}
 	g2.entry = root.entry
 	g2.oldFrontier = root.oldFrontier
 	g2.entryPrefix = root.entryPrefix
